@@ -82,8 +82,12 @@ pub type HeapIdx = DefaultKey;
 pub fn heap_retain(storage: &mut HeapStorage, idx: HeapIdx) {
     if let Some(obj) = storage.get_mut(idx) {
         obj.refcount += 1;
+        #[cfg(mimium_verif)]
+        super::verif_hooks::heap_record(super::verif_hooks::H2_HEAP | 1, idx, obj.refcount);
         log::trace!("heap_retain: {:?} refcount -> {}", idx, obj.refcount);
     } else {
+        #[cfg(mimium_verif)]
+        super::verif_hooks::heap_record(super::verif_hooks::H2_HEAP | 1, idx, super::verif_hooks::H2_INVALID);
         log::warn!("heap_retain: invalid HeapIdx {idx:?}");
     }
 }
@@ -103,13 +107,19 @@ pub fn heap_retain(storage: &mut HeapStorage, idx: HeapIdx) {
 pub fn heap_release(storage: &mut HeapStorage, idx: HeapIdx) {
     if let Some(obj) = storage.get_mut(idx) {
         obj.refcount -= 1;
+        #[cfg(mimium_verif)]
+        super::verif_hooks::heap_record(super::verif_hooks::H2_HEAP | 2, idx, obj.refcount);
         log::trace!("heap_release: {:?} refcount -> {}", idx, obj.refcount);
 
         if obj.refcount == 0 {
             log::trace!("heap_release: freeing {idx:?}");
             storage.remove(idx);
+            #[cfg(mimium_verif)]
+            super::verif_hooks::heap_record(super::verif_hooks::H2_HEAP | 3, idx, 0);
         }
     } else {
+        #[cfg(mimium_verif)]
+        super::verif_hooks::heap_record(super::verif_hooks::H2_HEAP | 2, idx, super::verif_hooks::H2_INVALID);
         log::warn!("heap_release: invalid HeapIdx {idx:?}");
     }
 }
@@ -126,6 +136,8 @@ pub fn heap_release_closure(storage: &mut HeapStorage, idx: HeapIdx) {
     // First, decrement refcount
     let should_free = if let Some(obj) = storage.get_mut(idx) {
         obj.refcount -= 1;
+        #[cfg(mimium_verif)]
+        super::verif_hooks::heap_record(super::verif_hooks::H2_HEAP | 2, idx, obj.refcount);
         log::trace!(
             "heap_release_closure: {:?} refcount -> {}",
             idx,
@@ -133,6 +145,8 @@ pub fn heap_release_closure(storage: &mut HeapStorage, idx: HeapIdx) {
         );
         obj.refcount == 0
     } else {
+        #[cfg(mimium_verif)]
+        super::verif_hooks::heap_record(super::verif_hooks::H2_HEAP | 2, idx, super::verif_hooks::H2_INVALID);
         log::warn!("heap_release_closure: invalid HeapIdx {idx:?}");
         return;
     };
@@ -146,6 +160,8 @@ pub fn heap_release_closure(storage: &mut HeapStorage, idx: HeapIdx) {
 
         log::trace!("heap_release_closure: freeing {idx:?}");
         storage.remove(idx);
+        #[cfg(mimium_verif)]
+        super::verif_hooks::heap_record(super::verif_hooks::H2_HEAP | 3, idx, 0);
     }
 }
 
